@@ -45,6 +45,7 @@ class Unit:
         self.name = os.path.splitext(os.path.basename(path))[0]
         self.opts = {}
         self.obs = []
+        self.smts = []
         self.stubs = []
         for line in open(path):
             line = line.strip()
@@ -54,6 +55,12 @@ class Unit:
                     self.opts[k] = v
             elif line.startswith("// ASSUME:"):
                 self.stubs.append(line[len("// ASSUME:"):].strip())
+            elif line.startswith("// SMT:"):
+                sm = {"tier": "quick", "bounds": "", "desc": "", "timeout": "300"}
+                for tok in shlex.split(line[len("// SMT:"):]):
+                    k, _, v = tok.partition("=")
+                    sm[k] = v
+                self.smts.append(sm)
             elif line.startswith("// OB:"):
                 toks = shlex.split(line[len("// OB:"):])
                 ob = {"name": toks[0], "tier": "quick", "unwind": "8", "timeout": "600", "solver": "default", "bounds": "",
@@ -328,6 +335,51 @@ def run_ob(unit, ob, memlimit_kb, params=None):
     return res
 
 
+def run_smt(unit, sm):
+    """Integer back end (DESIGN 2.9): kernel -> SMT-LIB over Int, spec queries decided by z3 AND cvc5."""
+    t0 = time.time()
+    ll = os.path.join(unit.dir, unit.name + ".ll")
+    defs = os.path.join(unit.dir, sm["name"] + ".defs.smt2")
+    rc, out, _ = sh([IR2C, ll, "-o", defs, "--smt-int", sm["kernel"]], timeout=120)
+    res = {"name": sm["name"], "kernel": sm["kernel"], "queries": [], "status": "error", "detail": out[-500:], "solvers": {}}
+    if rc != 0:
+        return res
+    spec = open(os.path.join(VERIF, "harness", sm["spec"])).read()
+    dtext = open(defs).read()
+    nsides = int(re.search(r"; nsides (\d+)", dtext).group(1))
+    # expand the side-obligation template: one query per side obligation
+    m = re.search(r";;SIDE-TEMPLATE\n(.*?);;END-SIDE-TEMPLATE\n", spec, re.S)
+    if m:
+        block = "".join(m.group(1).replace("@I@", str(i)) for i in range(nsides))
+        spec = spec[:m.start()] + block + spec[m.end():]
+    script = "(set-logic ALL)\n" + dtext + spec
+    path = os.path.join(unit.dir, sm["name"] + ".smt2")
+    open(path, "w").write(script)
+    expected = re.findall(r'\(echo "Q (\S+) (\S+)"\)', script)
+    ok = True
+    for solver, cmd in (("z3", ["z3", "-smt2", path]), ("cvc5", ["cvc5", "--incremental", path])):
+        rc, out, dt = sh(cmd, timeout=int(sm["timeout"]))
+        res["solvers"][solver] = {"wall_s": round(dt, 2)}
+        if "(error" in out or "TIMEOUT" in out:
+            res["detail"] = "%s: %s" % (solver, out[-400:])
+            ok = False
+            continue
+        got = re.findall(r'^"?Q (\S+) (\w+)"?\n(sat|unsat|unknown)', out, re.M)
+        if len(got) != len(expected):
+            res["detail"] = "%s answered %d of %d queries: %s" % (solver, len(got), len(expected), out[-300:])
+            ok = False
+            continue
+        for (nm, exp, ans) in got:
+            res["queries"].append({"solver": solver, "query": nm, "expected": exp, "answer": ans})
+            if exp != ans:
+                ok = False
+                res.setdefault("failed", []).append("%s: %s expected %s got %s" % (solver, nm, exp, ans))
+    res["status"] = "pass" if ok else ("fail" if res.get("failed") else "error")
+    res["nsides"] = nsides
+    res["wall_s"] = round(time.time() - t0, 2)
+    return res
+
+
 def classify(desc):
     if desc.startswith("PROP: "):
         return "PROP"
@@ -408,7 +460,7 @@ def main(argv):
     jobs = []
     for u in units:
         u.obs = [o for o in u.obs if o["tier"] in tiers and (not a.only or o["name"] == a.only)]
-        if not u.obs:
+        if not u.obs and not [m for m in u.smts if m["tier"] in tiers and (not a.only or m["name"] == a.only)]:
             continue
         ok, msg = build_unit(u, log)
         if not ok:
@@ -421,6 +473,13 @@ def main(argv):
             continue
         for ob in u.obs:
             jobs.append((u, ob))
+    smt_results = []
+    for u in units:
+        if not hasattr(u, "side"):
+            continue
+        for sm in u.smts:
+            if sm["tier"] in tiers and (not a.only or sm["name"] == a.only):
+                smt_results.append((u, sm, run_smt(u, sm)))
     memkb = int(os.environ.get("VF_MEM_GB", "6" if a.tier == "quick" else "16")) * 1024 * 1024
     with cf.ThreadPoolExecutor(max_workers=a.jobs) as ex:
         futs = {}
@@ -513,6 +572,24 @@ def main(argv):
         if ob_ok:
             discharged += 1
         samples.append(entry)
+    for u, sm, r in smt_results:
+        queries += len(r["queries"])
+        entry = {"obligation": sm["name"], "unit": u.name, "engine": "IR -> SMT-LIB over Int (ir2c --smt-int), z3 4.8.12 and cvc5 1.0 must agree",
+                 "kernel": sm["kernel"], "bounds": sm["bounds"], "desc": sm["desc"], "queries": len(r["queries"]),
+                 "side_obligations": r.get("nsides"), "solver_wall_s": r["solvers"], "verdict": "holds-within-bounds" if r["status"] == "pass" else "not-discharged",
+                 "query_list": [q for q in r["queries"] if q["solver"] == "z3"][:12]}
+        samples.append(entry)
+        byob[(u.name, sm["name"])] = []
+        if r["status"] == "pass":
+            discharged += 1
+            nontrivial += sum(1 for q in r["queries"] if q["expected"] == "sat" and q["answer"] == "sat" and q["solver"] == "z3")
+        elif r["status"] == "fail":
+            os.makedirs(os.path.join(VERIF, "replays", pid), exist_ok=True)
+            rpath = os.path.join(VERIF, "replays", pid, sm["name"] + ".json")
+            json.dump({"property": pid, "unit": u.name, "smt": sm["name"], "failed": r["failed"], "script": os.path.join(u.dir, sm["name"] + ".smt2")}, open(rpath, "w"), indent=1)
+            violations.append(({"name": sm["name"]}, {"desc": "; ".join(r["failed"])}, rpath, {"outcome": "solver-model", "target": "smt-int"}))
+        else:
+            inconclusive.append("%s: %s" % (sm["name"], r["detail"]))
     # known-findings lines
     seen = set()
     for kf, fl in known_hits:
@@ -544,7 +621,7 @@ def main(argv):
     os.makedirs(os.path.join(VERIF, "evidence"), exist_ok=True)
     json.dump(ev, open(os.path.join(VERIF, "evidence", pid + ".json"), "w"), indent=1)
     for e in samples:
-        print("%-40s %-20s queries=%-4d passed=%-4d reachable=%-4d cpu=%7.1fs rss<=%sMB" % (e["obligation"], e["verdict"], e["queries"], e["passed"], e["witness_reachable"], e["wall_s"], e["rss_mb_max"]))
+        print("%-40s %-20s queries=%-4d passed=%-4s reachable=%-4s cpu=%7.1fs rss<=%sMB" % (e["obligation"], e["verdict"], e["queries"], e.get("passed", "-"), e.get("witness_reachable", "-"), e.get("wall_s", 0), e.get("rss_mb_max", "-")))
     if not a.keep:
         for u in units:
             for f in glob.glob(os.path.join(u.dir, "*.o")) + glob.glob(os.path.join(u.dir, "real*")) + glob.glob(os.path.join(u.dir, "xlat*")):
